@@ -1700,10 +1700,41 @@ def h_unchecked_disjoint(ctx, p):
     ctx.classes['returned'] += 1
     ctx.req('OUT', not p.reads and not p.writes and not p.lens, ctx.body.name,
             'must not move, write or re-count any element', p)
+    _single_request_rule(ctx, p)
+
+
+def _probed_requests(p, req):
+    """indices of the request array whose element was compared with a stored key on this path"""
+    out = []
+    for e in p.user:
+        if not e[1].endswith('PartialEq::eq'):
+            continue
+        sides = [p.E.strip_borrow(t) for t in e[2]]
+        if not any(isinstance(t, tuple) and len(t) == 4 and t[0] == 'slot' for t in sides):
+            continue
+        for t in sides:
+            if isinstance(t, tuple) and len(t) >= 3 and t[0] == 'elem' and (t[1] == req or (
+                    isinstance(req, tuple) and isinstance(t[1], tuple) and t[1][:len(req)] == req)):
+                out.append(t[2])
+    return out
+
+
+def _single_request_rule(ctx, p):
+    """a path that looked up only request 0 (the single-request shortcut) is only sound for J <= 1"""
+    req = p.arg.get(1)
+    pr = _probed_requests(p, req)
+    if pr and all(isinstance(i, int) for i in pr):
+        ctx.req('PAIRS', p.z.entails_le(Term('$J'), max(pr) + 1), ctx.body.name + ':shortcut',
+                'only request(s) %s were looked up on this path although J is not known to be <= %d: the other '
+                'requests get no answer' % (sorted(set(pr)), max(pr) + 1), p)
 
 
 def h_get_disjoint(ctx, p):
     nm = ctx.body.name
+    if not p.z.entails_le(1, Term('$J')) and not (p.ms is not None and p.z.entails_eq(p.ms.len0, 0)):
+        # returns normally with nothing known to exclude J == 0 on a non-empty map
+        ctx.classes['empty-request-ok'] += 1
+    _single_request_rule(ctx, p)
     acc = [i for i, e in enumerate(p.events) if e[0] in ('slice', 'at') and e[1] == p.mid]
     ctx.req('OUT', not p.reads and not p.writes and not p.lens, nm, 'must not move, write or re-count any element', p)
     if not acc:
@@ -2084,7 +2115,8 @@ def required_classes(key):
     if key[2] in ('new', 'default', 'with_capacity') and key[0] in (MAP, SET):
         return {'made'}
     if key[2] == 'get_disjoint_mut':
-        return {'access', 'no-access'}
+        # 'empty-request-ok': an empty request array must be answered (with an empty array) whatever the map holds
+        return {'access', 'no-access', 'empty-request-ok'}
     if key[2] in ('serialize', 'visit_map', 'visit_seq') and key in HANDLERS:
         return {'done', 'error'}
     if key[2] == 'deserialize' and key in HANDLERS:
